@@ -10,7 +10,7 @@ Engine E1 (histories on real solver objects, judged after every operation).  Enu
                   SetConstraints(c) replacing another live constraint after k Steps}
   x stop {every Step boundary of an N-step run; Solve stopped by maxiter / maxfun in {1,2,3,5}
           (new=True limits when installed mid-run); Solve under the solver's default termination}
-  x cost x start x DE seed.
+  x cost x start x DE seed [x penalty {none, ramp} on a reduced product].
 
 Only constraints that are idempotent and map the box into itself are used (solverlab.compatible, mechanical).
 
@@ -25,7 +25,7 @@ harness-owned pure copy of the map; the objective is recomputed from the raw cos
       holds exactly the constrained images of the pure run's (the statement does not speak about them).
 solution_history / population entries are not judged (the statement does not cover them).
 """
-import math, os, re
+import math, re
 import numpy as np
 from mc import graph, solverlab, env, c03_lab
 from mc.c03_lab import Lab3, split, compact
@@ -95,6 +95,7 @@ class Oracle(graph.Oracle):
         self.best_judged = 0
         self.best_inf = 0
         self.midrun_best = [0, 0]   # [satisfied, not] - evidence only
+        self.inf_best = [0, 0]      # [satisfied, not] at stops with a non-finite bestEnergy - evidence only
         self.abnormal = None
         self.stop_msg = None
         # per real iteration: (cost calls so far, stored points, constraint kinds in force so far) - used only to explain a divergence
@@ -123,13 +124,9 @@ class Oracle(graph.Oracle):
         name = op[0]
         out = []
         if isinstance(outcome, tuple) and outcome and outcome[0] in ('RAISED', 'HORIZON'):
+            # an exception / a runaway is neither an evaluation nor a report: the statement is silent (C05 judges stopping).
+            # The history is judged up to here, counted in the 'abnormal' histogram, and the run is marked not exhaustive.
             self.abnormal = outcome[:3]
-            if outcome[0] == 'HORIZON':
-                out.append((self.sig('runaway', name), '%s did not return within the evaluation horizon' % name))
-            else:
-                # an exception is not an evaluation; the statement is about evaluations and reports: recorded, counted
-                out.append((dict(self.sig('raised', name), error=outcome[1]),
-                            '%s raised %s: %s' % (name, outcome[1], outcome[2])))
             return out
         if name == 'SetConstraints':
             self.install = ('replaced_midrun' if self.stepped else 'replaced_before_first_step') if self.cur is not None \
@@ -159,6 +156,7 @@ class Oracle(graph.Oracle):
                         out.append((self.sig('energy_not_scalar', name), 'bestEnergy is array-valued %r' % (bestE,)))
                     elif not np.isfinite(bestE):
                         self.best_inf += 1       # nothing better than inf/nan was found: no solution is being reported
+                        self.inf_best[0 if satisfied(kind, best) else 1] += 1
                     else:
                         self.best_judged += 1
                         if not satisfied(kind, best):
@@ -287,8 +285,11 @@ def install_class(label):
 
 
 def base_cfg(spec):
-    return {'solver': spec['solver'], 'dim': spec['dim'], 'cost': spec['cost'], 'x0': spec['x0'], 'box': spec['box'],
-            'tight': spec['tight'], 'clip': spec['clip'], 'seed': spec['seed'], 'term': 'never', 'horizon': 20000}
+    cfg = {'solver': spec['solver'], 'dim': spec['dim'], 'cost': spec['cost'], 'x0': spec['x0'], 'box': spec['box'],
+           'tight': spec['tight'], 'clip': spec['clip'], 'seed': spec['seed'], 'term': 'never', 'horizon': 20000}
+    if spec.get('penalty'):
+        cfg['penalty'] = spec['penalty']
+    return cfg
 
 
 def run_one(cfg, ops, T, label):
@@ -298,7 +299,8 @@ def run_one(cfg, ops, T, label):
     T.hist('cost_calls_judged_by_solver', solver, orc.calls_judged)
     T.hist('best_reports_judged_by_solver', solver, orc.best_judged)
     if orc.best_inf:
-        T.hist('best_not_judged_nonfinite_energy', solver, orc.best_inf)
+        T.hist('best_not_judged_nonfinite_energy', '%s: bestSolution satisfies the constraint' % solver, orc.inf_best[0])
+        T.hist('best_not_judged_nonfinite_energy', '%s: bestSolution violates it (evidence only)' % solver, orc.inf_best[1])
     if orc.midrun_best[0] or orc.midrun_best[1]:
         T.hist('evidence_only_best_after_midrun_installation', '%s: satisfies the new constraint' % solver, orc.midrun_best[0])
         T.hist('evidence_only_best_after_midrun_installation', '%s: violates it (not judged: not in force from the first iteration)' % solver, orc.midrun_best[1])
@@ -388,6 +390,15 @@ def specs_for(ctx):
                     for seed in seeds:
                         out.append({'solver': solver, 'dim': 2, 'cost': cost, 'x0': x0, 'box': box, 'tight': t, 'clip': c,
                                     'kind': kind, 'seed': seed})
+    # with a penalty (the reported energy is then cost + penalty at the constrained point): a reduced product
+    for solver in solverlab.SOLVERS:
+        for kind in kinds2:
+            for (box, t, c) in [(None, None, None), ('unit', None, None)] + ([('unit', True, True)] if th else []):
+                if not compat(kind, box, 2):
+                    continue
+                for cost in (['sphere', 'rosen'] if th else ['sphere']):
+                    out.append({'solver': solver, 'dim': 2, 'cost': cost, 'x0': [2.0, 0.5], 'box': box, 'tight': t, 'clip': c,
+                                'kind': kind, 'seed': ctx.seed, 'penalty': 'ramp'})
     # other dimensions: a reduced product (the symbolic constraint needs two coordinates)
     for dim in ((1, 3) if th else (1,)):
         for solver in solverlab.SOLVERS:
@@ -446,6 +457,7 @@ def run(ctx):
                   'modes(tight,clip)': MODES, 'boxes': sorted(set(str(s['box']) for s in specs)),
                   'costs': sorted(set(s['cost'] for s in specs)), 'starts': sorted(set(map(tuple, (s['x0'] for s in specs)))),
                   'dims': sorted(set(s['dim'] for s in specs)), 'de_seeds': sorted(set(s['seed'] for s in specs)),
+                  'penalties': ['none', 'ramp = 10*max(0, sum(x)-1) (reduced product)'],
                   'steps_per_run': N, 'install_after_k_steps': [0] + KS, 'replace_after_k_steps': RKS,
                   'solve_limits(maxiter,maxfun)': LIMITS, 'base_configurations(pairs)': len(specs),
                   'schedules_per_configuration_and_variant': nsched,
@@ -461,10 +473,11 @@ def run(ctx):
                        'population / solution_history entries are not judged; a pure/in-place divergence that follows from differently stored non-reported points is counted, not raised']
     ctx.explanation = ('Clause (3) is stricter than the wording of the statement (which asks that (1),(2) hold for both variants, not that the runs coincide); '
                        'it is kept because identical runs are what makes in-place aliasing unobservable, and the one accepted kind of divergence is listed in the differential histogram.')
-    parts = os.environ.get('VERIF_PARTS')
-    if parts:
-        items = items[:int(parts)]
     ctx.pmap(shard, items)
+    ab = ctx.tally.h.get('abnormal')
+    if ab:
+        ctx.cap('%d histories ended by an exception or the evaluation horizon and were judged only up to that operation: %s'
+                % (sum(ab.values()), sorted(ab.items())[:6]))
 
 
 def replay(case):
